@@ -222,8 +222,8 @@ def run(ctx):
     st2, br = run_suite(ctx, "random", preqs, lambda req, k: pairs[preqs.index(req)])
     broken_all += br
     ctx.sample({"suite": "random", "request": preqs[0], "means": "nameMatch(%r, %r)" % pairs[0]})
-    st3 = suite_static(ctx, 150 if quick else 4000)
     st4 = suite_trie(ctx, 1500 if quick else 40000)
+    st3 = suite_static(ctx, 150 if quick else 4000)
     if broken_all and not ctx.violations:
         who, ds, n, v, m = broken_all[0]
         ctx.violation("correspondence", "namematch", ["P\t%s\t%s" % (hexs(ds), hexs(n))], found_input=False,
@@ -244,8 +244,13 @@ def suite_trie(ctx, n):
     enc = lambda b: hexs(b) if b else "-"
     lines, meta = [], []
     for _ in range(n):
-        words = [w(7) for _ in range(rnd.randint(1, 9))]
-        if rnd.random() < 0.3: words.append(rnd.choice(words))
+        if rnd.random() < 0.4:
+            # well-formed, pairwise distinct event names: the model's answer is the Recommendation's
+            words = list(set(b".".join(rnd.choice([b"a", b"b", b"c", b"ab", b"done"]) for _ in range(rnd.randint(1, 3))) for _ in range(rnd.randint(1, 9))))
+            rnd.shuffle(words)
+        else:
+            words = [w(7) for _ in range(rnd.randint(1, 9))]
+            if rnd.random() < 0.3: words.append(rnd.choice(words))
         prefixes = [b""] + [w(4) for _ in range(rnd.randint(1, 4))] + [rnd.choice(words)[:rnd.randint(0, 4)]]
         lines.append("%s\t%s" % (",".join(enc(x) for x in words), ",".join(enc(x) for x in prefixes))); meta.append((words, prefixes))
     parts = list(chunks(lines, max(1, len(lines) // 8 + 1)))
@@ -256,13 +261,16 @@ def suite_trie(ctx, n):
     with ThreadPoolExecutor(8) as ex: res = list(ex.map(work, parts))
     H = [x for h, _ in res for x in h]; M = [x for _, m in res for x in m]
     st = dict(inputs=len(lines), agree=0, queries=0, nonempty_answers=0, violations=0)
-    for l, (words, prefixes), h, m in zip(lines, meta, H, M):
+    iswf = lambda words: all(x and all(t for t in x.split(b".")) for x in words) and len(set(words)) == len(words)
+    rows = sorted(zip(lines, meta, H, M), key=lambda r: 0 if iswf(r[1][0]) else 1)       # failing inputs the theorem speaks about first
+    st["wellformed_word_lists"] = sum(1 for r in rows if iswf(r[1][0]))
+    for l, (words, prefixes), h, m in rows:
         st["queries"] += len(prefixes); st["nonempty_answers"] += sum(1 for x in h.split(" ")[0].split("|") if x)
         if h == m: st["agree"] += 1; continue
         st["violations"] += 1
         if len(ctx.violations) < 3:
             # well-formed names (non-empty tokens) that are pairwise distinct: the model's answer is 3.12.1's (static_resolution_is_spec)
-            wf = all(x and all(t for t in x.split(b".")) for x in words) and len(set(words)) == len(words)
+            wf = iswf(words)
             ctx.violation("trie-%d" % len(ctx.violations), "trie", [l], found_input=wf,
                           detail="Trie (separator '.') and Model.Trie differ: words %r prefixes %r\ncode : %s\nmodel: %s%s" % (words, prefixes, h, m,
                           "\n(the words are well-formed distinct event names: the model's answer is the Recommendation's, static_resolution_is_spec)" if wf else ""))
